@@ -330,6 +330,12 @@ class Check:
         self.violations.append({"clause": clause, "sig": sig, "detail": detail})
         return True
 
+    def vacuity(self, msg):
+        """a mandatory antecedent was never exercised: machinery failure - unless violations were found, which are
+        reported instead (a broken build typically makes scenarios fail AND starves the counters)"""
+        if not self.violations:
+            raise MachineryError(msg)
+
     def finish(self, extra_cov=None):
         self.cov["distinct_nontrivial"] = len(self._distinct)
         if extra_cov:
